@@ -16,7 +16,7 @@ from ..desc import field, message, method, service, file, request
 from ..ref import names
 from ..report import HarnessError
 
-RULE = ('states = namespace depth(4) x version(5) x file layout(3) x dependency files(3) x proto file name(8) tiny APIs + '
+RULE = ('states = namespace depth(4) x version(5) x file layout(3) x dependency files(3) x proto file name(11) tiny APIs + '
         'every single option-string edit on a covering subset; oracle = reference layout/naming rules on file[*].name, '
         'supported_features, byte-identity for ignored options; non-trivial = distinct states whose response had >= 20 files')
 
@@ -26,7 +26,8 @@ LAYOUTS = ['one', 'two', 'two+sub']
 DEPS = ['none', 'wkt', 'foreign']
 FNAMES = {'plain': ['widgets'], 'dotted': ['my.file'], 'keyword': ['import'], 'control-metadata': ['metadata'],
           'control-request': ['request'], 'camel': ['MyWidgets'], 'hyphen': ['my-widgets'],
-          'same-after-sanitising': ['my-file', 'my_file']}
+          'same-after-sanitising': ['my-file', 'my_file'], 'underscore-then-dot': ['my_file', 'my.file'],
+          'dot-then-underscore': ['my.file', 'my_file'], 'keyword-and-suffixed': ['import_', 'import']}
 
 OPTION_EDITS = {
     # name: (option string, kind) kind: 'same' -> byte-identical to the empty option string; 'ok' -> must not fail;
